@@ -358,7 +358,8 @@ namespace Pistache
 
             std::ostream os(&stream.buf_);
             os << std::hex << size(val) << crlf;
-            os << val << crlf;
+            // only the chunk size is hexadecimal
+            os << std::dec << val << crlf;
 
             return stream;
         }
